@@ -44,6 +44,10 @@ type ReqT struct {
 	// Cancelled: the request context is already cancelled when ServeHTTP is entered. Only generated for
 	// requests that no route handler answers (the 405 / 404 / NoRoute clause does not look at the context).
 	Cancelled bool `json:",omitempty"`
+	// PanicIn: the handler that answers this request (route or NoRoute handler) panics after it has
+	// recorded what it saw and set the status; the caller of ServeHTTP recovers, as net/http does. What
+	// the handler saw stands; the requests served afterwards on the same router must not notice.
+	PanicIn bool `json:",omitempty"`
 }
 
 // OverlapT: Req is served while another request is in flight on the same router (two goroutines,
@@ -276,8 +280,10 @@ func Build(c CaseT, ask []string, obs *ObsT) *router.Router {
 		return func(ctx *router.Context) {
 			// the observation record (and the hold point) of this very request travel in its context
 			obs := shared
+			var hook *reqHook
 			if ctx.Request != nil {
 				if h, ok := ctx.Request.Context().Value(hookKey{}).(*reqHook); ok {
+					hook = h
 					obs = h.obs
 					if h.park != nil {
 						h.park()
@@ -296,6 +302,10 @@ func Build(c CaseT, ask []string, obs *ObsT) *router.Router {
 				ctx.Status(http.StatusNotFound)
 			} else {
 				ctx.Status(http.StatusOK)
+			}
+			if hook != nil && hook.fail {
+				hook.faulted = true
+				panic("injected fault: the handler fails after it has answered")
 			}
 		}
 	}
@@ -400,6 +410,8 @@ type reqHook struct {
 	obs  *ObsT
 	park func()
 	end  func()
+	// fail: the handler that answers this request panics after it has recorded what it saw
+	fail bool
 	// faulted: the hook itself is about to panic on purpose (fault injection)
 	faulted bool
 }
@@ -421,7 +433,7 @@ func (recorder) OnRequestEnd(_ context.Context, state any, _ http.ResponseWriter
 }
 
 // Serve runs one request through ServeHTTP on the session's router; a panic is an observation.
-func (s *Session) Serve(q ReqT) ObsT { return s.serve(q, &reqHook{}) }
+func (s *Session) Serve(q ReqT) ObsT { return s.serve(q, &reqHook{fail: q.PanicIn}) }
 
 func (s *Session) serve(q ReqT, h *reqHook) (o ObsT) {
 	if s.bad {
@@ -547,7 +559,7 @@ func (s *Session) ServeOverlap(kind string, a, b ReqT) (oa, ob ObsT) {
 	aHeld, aGo := make(chan struct{}), make(chan struct{})
 	bHeld, bGo := make(chan struct{}), make(chan struct{})
 	var onceA, onceB sync.Once
-	ha := &reqHook{}
+	ha := &reqHook{fail: a.PanicIn}
 	holdA := func() {
 		first := false
 		onceA.Do(func() { first = true; close(aHeld) })
@@ -564,7 +576,7 @@ func (s *Session) ServeOverlap(kind string, a, b ReqT) (oa, ob ObsT) {
 	} else {
 		ha.end = holdA
 	}
-	hb := &reqHook{}
+	hb := &reqHook{fail: b.PanicIn}
 	if kind != "handler" {
 		hb.park = func() {
 			first := false
@@ -610,7 +622,7 @@ func Observe(c CaseT, ask []string) ObsT {
 	case len(c.Burst) > 0:
 		// replay of a burst: the answer given alone, unless the burst shows another one
 		alone := s.Serve(c.Req)
-		for try := 0; try < 5; try++ {
+		for try := 0; try < BurstTries; try++ {
 			for _, o := range s.ServeBurst(append([]ReqT{c.Req}, c.Burst...), BurstWorkers, BurstRounds)[0] {
 				if ObsKey(o, ask) != ObsKey(alone, ask) {
 					return o
@@ -621,6 +633,9 @@ func Observe(c CaseT, ask []string) ObsT {
 	}
 	return s.Serve(c.Req)
 }
+
+// BurstTries: how often Observe repeats the burst of a case looking for a deviating answer (replay: 5)
+var BurstTries = 1
 
 const (
 	BurstWorkers = 8
